@@ -163,8 +163,18 @@ where
         self.bumps.get_mut().unwrap_or_else(PoisonError::into_inner)
     }
 
+    #[cfg(not(bump_scope_verif))]
     fn lock(&self) -> MutexGuard<'_, Vec<Bump<A, S>>> {
         self.bumps.lock().unwrap_or_else(PoisonError::into_inner)
+    }
+
+    /// Verification hook twin of `lock`: a scheduling point inside the critical section, so that the model
+    /// checker also explores what other threads can observe while the lock is held.
+    #[cfg(bump_scope_verif)]
+    fn lock(&self) -> MutexGuard<'_, Vec<Bump<A, S>>> {
+        let guard = self.bumps.lock().unwrap_or_else(PoisonError::into_inner);
+        loom::thread::yield_now();
+        guard
     }
 }
 
